@@ -20,6 +20,7 @@ import (
 
 	"github.com/jdillenkofer/pithos/internal/storage"
 	"github.com/jdillenkofer/pithos/internal/verif/vkit"
+	"github.com/jdillenkofer/pithos/internal/verif/vmodel"
 )
 
 const (
@@ -215,6 +216,11 @@ func classify416(specs []rspec, ref refOutcome) string {
 		multi = ":multi"
 	}
 	over := "9223372036854775808"
+	if len(specs) > 1 && ref.NUnsat > 0 {
+		// an unsatisfiable member alone explains the 416 of the current code;
+		// the huge-value classes below are reserved for lists without one
+		return "416:multi-range-partly-unsatisfiable"
+	}
 	for _, s := range specs {
 		if s.Kind == "fl" && isBig(s.Last, over) {
 			return "416:last-byte-pos-exceeds-int64" + multi
@@ -234,9 +240,6 @@ func classify416(specs []rspec, ref refOutcome) string {
 		if s.Kind == "fl" && s.Last == bigInt64Max {
 			return "416:last-byte-pos-int64-max-overflow" + multi
 		}
-	}
-	if len(specs) > 1 && ref.NUnsat > 0 {
-		return "416:multi-range-partly-unsatisfiable"
 	}
 	return "416:satisfiable-range" + multi
 }
@@ -672,8 +675,6 @@ func (c *c05ctx) checkStorage(o *c05obj, specs []rspec, ref refOutcome, hdr, sep
 	return false
 }
 
-
-
 // ---- generators ----
 
 func itoa(n int) string { return strconv.Itoa(n) }
@@ -926,6 +927,22 @@ func (c *c05ctx) makeObject(i int, sh objShape) *c05obj {
 		return nil
 	}
 	o := &c05obj{key: key, shape: sh, content: sh.content()}
+	if strings.HasPrefix(c.stack, "outbox") && sh.size() > 0 {
+		// read straight after the write, while the outbox may still hold the parts
+		if insp, err := vmodel.OpenInspector(c.g.env.Dir); err == nil {
+			if n, err := insp.Count("part_outbox_entries"); err == nil {
+				c.r.Count("outbox_entries_pending_at_immediate_reads", int64(n))
+				if n > 0 {
+					c.r.Count("objects_read_while_outbox_entries_pending", 1)
+				}
+			}
+			insp.Close()
+		}
+		n := sh.size()
+		c.check(o, []rspec{{Kind: "f-", First: "0"}}, ",", false, true)
+		c.check(o, []rspec{{Kind: "fl", First: itoa(n / 2), Last: itoa(n - 1)}}, ",", false, true)
+		c.check(o, []rspec{{Kind: "-s", Suffix: itoa((n + 1) / 2)}}, ",", false, true)
+	}
 	// the reference is the acknowledged written content; a whole-object GET is
 	// made once as a cross-check (its own correctness is C01's subject, so a
 	// difference is only counted here - the range checks below still run and
@@ -1019,23 +1036,33 @@ func (c *c05ctx) run(base *vkit.Rand) {
 func (c *c05ctx) exhaustiveObject(o *c05obj, base *vkit.Rand) {
 	r, sh := c.r, o.shape
 	singles := exhaustiveSingles(sh.size())
+	sent := 0
 	for n, s := range singles {
 		if s.Kind == "fl" && c.stack != c05Stacks[0] && !r.Thorough() && bigOf(s.Last).Cmp(bigOf(s.First)) < 0 {
 			// last<first is syntactically invalid (observed only, decided before any
 			// part store is touched): in the quick tier only the first stack sends them
 			continue
 		}
+		sent++
 		c.check(o, []rspec{s}, ",", n%16 == 0, true)
 	}
 	c.exh.mu.Lock()
 	c.exh.Objects++
-	c.exh.Ranges += int64(len(singles))
+	c.exh.Ranges += int64(sent)
 	if sh.size() > c.exh.MaxSize {
 		c.exh.MaxSize = sh.size()
 	}
 	c.exh.mu.Unlock()
+	if c.stack == c05Stacks[0] && sh.label() == "mpu[4,4,4]" {
+		// a few executed cases, verbatim, for the evidence file
+		for _, hdr := range []string{"bytes=3-8", "bytes=-5", "bytes=10-", "bytes=0-3,8-20", "bytes=12-"} {
+			if resp, err := serve(c.g.handler, "/"+c05Bucket+"/"+o.key, nil, map[string]string{"Range": hdr}); err == nil {
+				r.Sample(map[string]any{"stack": c.stack, "object": sh.label(), "request_range": hdr, "answer": summarize(resp)})
+			}
+		}
+	}
 	mrng := base.Fork("multi/" + c.stack + "/" + sh.label())
-	for m := 0; m < r.N(60, 400); m++ {
+	for m := 0; m < r.N(40, 400); m++ {
 		specs, tags := genMulti(mrng, sh.size(), nil)
 		for t := range tags {
 			r.Count("multi_lists:"+t, 1)
@@ -1114,13 +1141,12 @@ func runC05(tier, replay string) {
 	wg.Wait()
 	r.SetExtra("exhaustive_block", map[string]any{
 		"exhaustive":               true,
-		"what":                     "all single byte ranges (first x last in 0..size+1, open-ended, suffix set, huge last set) of every small object, per stack and per API",
+		"what":                     "every syntactically valid single byte range (first <= last in 0..size+1, open-ended starts 0..size+1, suffix set, huge-last set) of every small object, on every stack, through HTTP and storage.GetObject; the invalid last<first pairs (observed only) are sent on the first stack only in the quick tier",
 		"objects":                  exh.Objects,
 		"single_ranges_enumerated": exh.Ranges,
 		"max_object_size":          exh.MaxSize,
 	})
-	r.Sample(map[string]any{"range_header": "bytes=3-9223372036854775806", "object": "mpu[4,4,4]", "reference": refResolve([]rspec{{Kind: "fl", First: "3", Last: bigInt64Max1}}, 12)})
-	r.Sample(map[string]any{"range_header": "bytes=13-14, -3, 2-5", "object": "mpu[4,4,4]", "reference": refResolve([]rspec{{Kind: "fl", First: "13", Last: "14"}, {Kind: "-s", Suffix: "3"}, {Kind: "fl", First: "2", Last: "5"}}, 12)})
+	r.Sample(map[string]any{"range_header": "bytes=13-14, -3, 2-5", "object_size": 12, "reference": refResolve([]rspec{{Kind: "fl", First: "13", Last: "14"}, {Kind: "-s", Suffix: "3"}, {Kind: "fl", First: "2", Last: "5"}}, 12)})
 	if r.Counter("http_requests") == 0 || r.Counter("storage_calls") == 0 || r.Counter("http_status:206") == 0 || r.Counter("http_status:416") == 0 {
 		r.Inconclusive("no range requests observed (or never both 206 and 416)")
 	}
